@@ -33,8 +33,14 @@ class GreensFunctionCache:
         self.cache_dir = Path(cache_dir)
         self.cache_dir.mkdir(parents=True, exist_ok=True)
 
-    def _compute_key(self, z, profiles, domain, modes, meas_pt, halo, precision):
-        """Compute SHA-256 hash from solver inputs."""
+    def _compute_key(
+        self, z, profiles, domain, modes, meas_pt, halo, precision, extra=None
+    ):
+        """Compute SHA-256 hash from solver inputs.
+
+        ``extra`` carries any further solver arguments the result depends on
+        (output levels, grid shape, analytic flag, background concentration).
+        """
         h = hashlib.sha256()
         h.update(np.asarray(z).tobytes())
         for arr in profiles:
@@ -44,9 +50,11 @@ class GreensFunctionCache:
         h.update(np.asarray(meas_pt).tobytes())
         h.update(str(halo).encode())
         h.update(precision.encode())
+        if extra is not None:
+            h.update(repr(extra).encode())
         return h.hexdigest()
 
-    def get(self, z, profiles, domain, modes, meas_pt, halo, precision):
+    def get(self, z, profiles, domain, modes, meas_pt, halo, precision, extra=None):
         """Look up cached result.
 
         Returns
@@ -54,7 +62,9 @@ class GreensFunctionCache:
         tuple or None
             (grid, conc, flx) if cached, None on miss.
         """
-        key = self._compute_key(z, profiles, domain, modes, meas_pt, halo, precision)
+        key = self._compute_key(
+            z, profiles, domain, modes, meas_pt, halo, precision, extra
+        )
         path = self.cache_dir / f"{key}.npz"
         if path.exists():
             logger.debug("Cache hit: %s", key[:12])
@@ -65,10 +75,23 @@ class GreensFunctionCache:
         return None
 
     def put(
-        self, z, profiles, domain, modes, meas_pt, halo, precision, grid, conc, flx
+        self,
+        z,
+        profiles,
+        domain,
+        modes,
+        meas_pt,
+        halo,
+        precision,
+        grid,
+        conc,
+        flx,
+        extra=None,
     ):
         """Store a result in the cache."""
-        key = self._compute_key(z, profiles, domain, modes, meas_pt, halo, precision)
+        key = self._compute_key(
+            z, profiles, domain, modes, meas_pt, halo, precision, extra
+        )
         path = self.cache_dir / f"{key}.npz"
         X, Y, Z = grid
         np.savez(path, X=X, Y=Y, Z=Z, conc=conc, flx=flx)
